@@ -100,8 +100,9 @@ def get_atoms_and_fixed_atom_indexes(molecule):
     distances = list(molecule.constraints.distance.values())
 
     # Get a set of atoms that have been shifted using a linear interpolation
+    # NOTE: shift a copy, as generating an input must not move the molecule
     atoms = _get_atoms_linear_interp(
-        atoms=molecule.atoms, bonds=bonds, final_distances=distances
+        atoms=molecule.atoms.copy(), bonds=bonds, final_distances=distances
     )
 
     # Populate a flat list of atom ids to fix
